@@ -365,7 +365,7 @@ def run(chk: Check):
         if isinstance(n, ast.Raise):
             for c, _ in conds_sym(chk, octx, n):
                 for x in S.walk(c):
-                    if isinstance(x, tuple) and x and x[0] == "cmp" and S.is_const(x[3]) and x[3][1] in ("Plain", "Compressed"):
+                    if isinstance(x, tuple) and x and x[0] == "cmp" and _mentions_types(x[3]):
                         ty = root_subject(x[2])
     if ty is None:
         chk.violated("K-GATE", "hdd:image-type", octx.func, "unsupported image types are not refused")
@@ -529,3 +529,14 @@ def run(chk: Check):
                     chk.decide(reraises, "K-GATE", "no-swallowing-handler", n,
                                f"broad handler `except {names}` re-raises" if reraises else f"`except {names}` swallows errors raised while opening",
                                nontrivial=False)
+
+
+def _mentions_types(t) -> bool:
+    """The right-hand side of a comparison names the supported Parallels image types (a constant, or a tuple / list of constants)."""
+    vals = []
+    if S.is_const(t):
+        v = t[1]
+        vals = list(v) if isinstance(v, (tuple, list, set, frozenset)) else [v]
+    elif isinstance(t, tuple) and t and t[0] in ("tuple", "list") and all(S.is_const(a) for a in t[1]):
+        vals = [a[1] for a in t[1]]
+    return any(v in ("Plain", "Compressed") for v in vals if isinstance(v, str))
